@@ -5,7 +5,7 @@
 export GOFLAGS=-mod=mod GOPROXY=off GOSUMDB=off GOTOOLCHAIN=local
 for d in "$@"; do
   S=/verif/seeded/$d
-  case $d in r5-*) id=${d#r5-}; W=/tmp/seed5-$id; D=/tmp/seed5-$id-demo ;; r4-*) id=${d#r4-}; W=/tmp/seed4-$id; D=/tmp/seed4-$id-demo ;; r3-*) id=${d#r3-}; W=/tmp/seed3-$id; D=/tmp/seed3-$id-demo ;; r2-*) id=${d#r2-}; W=/tmp/seed2-$id; D=/tmp/seed2-$id-demo ;; *) id=$d; W=/tmp/seed-$id; D=/tmp/seed-$id-demo ;; esac
+  case $d in r6-*) id=${d#r6-}; W=/tmp/seed6-$id; D=/tmp/seed6-$id-demo ;; r5-*) id=${d#r5-}; W=/tmp/seed5-$id; D=/tmp/seed5-$id-demo ;; r4-*) id=${d#r4-}; W=/tmp/seed4-$id; D=/tmp/seed4-$id-demo ;; r3-*) id=${d#r3-}; W=/tmp/seed3-$id; D=/tmp/seed3-$id-demo ;; r2-*) id=${d#r2-}; W=/tmp/seed2-$id; D=/tmp/seed2-$id-demo ;; *) id=$d; W=/tmp/seed-$id; D=/tmp/seed-$id-demo ;; esac
   git -C /repo worktree remove --force $W >/dev/null 2>&1; rm -rf $W $D
   git -C /repo worktree add --detach $W HEAD >/dev/null 2>&1 || { echo "$d: cannot create worktree"; continue; }
   mkdir -p $D/tmp; cp $S/*_test.go $S/patch.diff $D/
